@@ -67,8 +67,26 @@ func init() {
 				}
 				all = append(all, cache[file]...)
 			}
+			// declarations outside those files that they reach (helpers, callees in other packages of the module)
+			var listed []string
+			for _, file := range append(append([]string{}, p.Anchors.Files...), extraSrc[p.ID]...) {
+				if strings.HasSuffix(file, ".go") && !strings.HasSuffix(file, ".pb.go") {
+					listed = append(listed, file)
+				}
+			}
+			for key := range reachableOutside(listed) {
+				file := key[:strings.Index(key, ":")]
+				if _, ok := cache[file]; !ok {
+					cache[file] = fingerprints(file)
+				}
+				for _, fp := range cache[file] {
+					if strings.HasPrefix(fp, key+"=") {
+						all = append(all, fp)
+					}
+				}
+			}
 			sort.Strings(all)
-			addStrs("src_"+p.ID, all, "function bodies of the anchor files of "+p.ID, p.ID)
+			addStrs("src_"+p.ID, all, "function bodies of the anchor files of "+p.ID+" and of the declarations they reach", p.ID)
 		}
 	})
 }
